@@ -382,7 +382,9 @@ func main() {
 	r.Serial(func(w *run.Worker) {
 		scs := scenarios()
 		// the largest scenario last; every scenario may use an equal share of what is left
-		sort.SliceStable(scs, func(i, j int) bool { return scs[i].Name == "S5-same-source-first-use" && false || (scs[j].Name == "S5-same-source-first-use" && scs[i].Name != scs[j].Name) })
+		sort.SliceStable(scs, func(i, j int) bool {
+			return scs[i].Name == "S5-same-source-first-use" && false || (scs[j].Name == "S5-same-source-first-use" && scs[i].Name != scs[j].Name)
+		})
 		end := time.Now().Add(budget)
 		for si, sc := range scs {
 			w.Begin("interleavings:"+sc.Name, sc.Name)
